@@ -324,9 +324,21 @@ Definition sess_ok (st : store) (s : asession) : Prop :=
   a_code s = 0 \/ exists s0, In s0 (st_asess st) /\ a_id s0 = a_id s /\ a_code s0 = a_code s.
 Lemma authenticate_safe w n now s pol st : sess_ok st s -> safe n (authenticate w n now s pol) st.
 Proof.
-  intros HS. unfold authenticate, get_client, save_a.
-  sgo; repeat split; auto.
-  all: try (destruct HS as [Z|HS]; [left; exact Z|right; right; exact HS]).
+  intros HS. destruct pol as [sub granted res det| | |e]; unfold authenticate.
+  - (* success: the session with the embedder's decisions recorded is named once, instead of being
+       copied into every branch (the kernel re-checks every copy at Qed) *)
+    set (s1 := s <| a_subject := sub |> <| a_granted := granted |> <| a_granted_res := res |> <| a_granted_details := det |>).
+    assert (HS1 : sess_ok st s1).
+    { destruct HS as [Z|[s0 (H0 & H1 & H2)]]; [left; exact Z|right; exists s0; repeat split; assumption]. }
+    clearbody s1. clear HS. unfold get_client, save_a.
+    sgo; repeat split; auto.
+    all: try (destruct HS1 as [Z|HS1]; [left; exact Z|right; right; exact HS1]).
+  - unfold get_client, save_a. sgo; repeat split; auto.
+    all: try (destruct HS as [Z|HS]; [left; exact Z|right; right; exact HS]).
+  - unfold get_client, save_a. sgo; repeat split; auto.
+    all: try (destruct HS as [Z|HS]; [left; exact Z|right; right; exact HS]).
+  - unfold get_client, save_a. sgo; repeat split; auto.
+    all: try (destruct HS as [Z|HS]; [left; exact Z|right; right; exact HS]).
 Qed.
 
 Lemma start_session_safe w n now c s r st : sess_ok st s -> safe n (start_session w n now c s r) st.
